@@ -34,6 +34,31 @@ pub fn set_mtime(path: &Path, tick: u64) {
     }
 }
 
+/// Overwrite the file's bytes through mmap(MAP_SHARED) without changing its length.
+fn mmap_rewrite(path: &Path, data: &[u8]) -> bool {
+    use std::os::unix::ffi::OsStrExt;
+    let c = match std::ffi::CString::new(path.as_os_str().as_bytes()) {
+        Ok(c) => c,
+        Err(_) => return false,
+    };
+    unsafe {
+        let fd = libc::open(c.as_ptr(), libc::O_RDWR);
+        if fd < 0 {
+            return false;
+        }
+        let m = libc::mmap(std::ptr::null_mut(), data.len(), libc::PROT_READ | libc::PROT_WRITE, libc::MAP_SHARED, fd, 0);
+        if m == libc::MAP_FAILED {
+            libc::close(fd);
+            return false;
+        }
+        std::ptr::copy_nonoverlapping(data.as_ptr(), m as *mut u8, data.len());
+        libc::msync(m, data.len(), libc::MS_SYNC);
+        libc::munmap(m, data.len());
+        libc::close(fd);
+    }
+    true
+}
+
 fn set_mtime_raw(path: &Path, ts: libc::timespec) {
     use std::os::unix::ffi::OsStrExt;
     if let Ok(c) = std::ffi::CString::new(path.as_os_str().as_bytes()) {
@@ -129,6 +154,25 @@ pub fn apply_plain(root: &Path, vars_dir: &Path, op: &FsOp, clock: &mut u64) -> 
             tick();
             set_mtime_raw(&p, old);
             vec![(K_MODIFY_DATA, vec![p.clone()]), (K_CLOSE_WRITE, vec![p.clone()]), (K_METADATA, vec![p])]
+        }
+        FsOp::WriteMmap { path, content } => {
+            let p = abs(path);
+            let len = match std::fs::metadata(&p) {
+                Ok(m) if m.is_file() && m.len() > 0 => m.len() as usize,
+                _ => return vec![],
+            };
+            // new bytes: the given content repeated / cut to the existing length
+            let src = content.as_bytes();
+            if src.is_empty() {
+                return vec![];
+            }
+            let data: Vec<u8> = (0..len).map(|i| src[i % src.len()]).collect();
+            let ok = mmap_rewrite(&p, &data);
+            if !ok {
+                return vec![];
+            }
+            set_mtime(&p, tick());
+            vec![(K_CLOSE_WRITE, vec![p])]
         }
         FsOp::WriteOlder { path, content } => {
             let p = abs(path);
